@@ -29,6 +29,7 @@ class Mode(LogMixin):
     __slots__ = ["machine", "config", "name", "path", "priority", "_active", "_starting", "_mode_start_wait_queue",
                  "stop_methods", "start_callback", "stop_callbacks", "event_handlers", "switch_handlers",
                  "mode_stop_kwargs", "mode_devices", "start_event_kwargs", "stopping", "delay", "player",
+                 "_stop_cleanup_pending",
                  "auto_stop_on_ball_end", "restart_on_next_ball", "asset_paths"]
 
     # pylint: disable-msg=too-many-arguments
@@ -62,6 +63,7 @@ class Mode(LogMixin):
         self.mode_devices = set()               # type: Set[ModeDevice]
         self.start_event_kwargs = {}            # type: Dict[str, Any]
         self.stopping = False
+        self._stop_cleanup_pending = False
 
         self.delay = DelayManager(self.machine)
         '''DelayManager instance for delays in this mode. Note that all delays
@@ -164,6 +166,11 @@ class Mode(LogMixin):
         if self._starting:
             self.debug_log("Mode already starting. Aborting start.")
             return
+
+        # a start requested while mode_<name>_stopped is still being handled (e.g.
+        # start_events: mode_<name>_stopped): finish the previous stop first, otherwise
+        # its cleanup would remove the handlers and devices of this start
+        self._finish_stop()
 
         self._starting = True
 
@@ -342,6 +349,8 @@ class Mode(LogMixin):
 
         self.stop_methods = list()
 
+        self._stop_cleanup_pending = True
+
         for event_name in self.config['mode']['events_when_stopped']:
             self.machine.events.post(event_name)
 
@@ -373,6 +382,13 @@ class Mode(LogMixin):
 
     def _mode_stopped_callback(self, **kwargs) -> None:
         del kwargs
+        self._finish_stop()
+
+    def _finish_stop(self) -> None:
+        """Clean up after the mode has stopped (once per stop)."""
+        if not self._stop_cleanup_pending:
+            return
+        self._stop_cleanup_pending = False
 
         # Call the mode_stop() method before removing the devices
         self.mode_stop(**self.mode_stop_kwargs)
